@@ -14,7 +14,7 @@ Not decided: that the kept bytes are the newest N (inherits extend_from_slice, C
 """
 import re
 
-from .. import common, guards, mir, shapes, shared
+from .. import common, effects, guards, mir, shapes, shared
 from ..report import short_loc
 
 QUICK = ["default"]
@@ -180,7 +180,66 @@ def io3(ctx, prog, cfg):
                   "front and back are both returned", cfg, nontrivial=False)
 
 
-def io4(ctx, prog, cfg):
-    shapes.must_match(ctx, "IO4", prog, BR + "consume",
-                      [r"call CircularBuffer::drain\(self, RangeTo::RangeTo\{end: (usize::min|core::cmp::min|core::cmp::Ord::min|<usize>::min)\(\(\*self\)\.size, amt\)\}\)", r"return const"], cfg,
-                      "drain(..min(amt, len))", "`consume` is not `self.drain(..min(amt, self.len()))`: it removes a different number of bytes or can hit the range panic")
+def io4(ctx, prog, cfg, short=None, rule="IO4"):
+    """consume(amt) removes exactly min(amt, len) bytes from the front: its one mutation is one `drain(..E)` whose result
+    is dropped at once, and E is min(amt, size) — spelled with a `min`, or chosen by a branch: then each value that can
+    flow into E is `amt` on an edge whose facts entail amt <= size, or the size on an edge whose facts entail size <= amt"""
+    short = short or BR + "consume"
+    f = ctx.need_fn(prog, short, rule)
+    if f is None:
+        return
+    dr = f.calls_to("CircularBuffer::drain", unwind=False)
+    muts = [(b, mir.callee_short(t)) for b, t in f.calls(False) if mir.is_local_callee(t) and mir.callee_short(t) in prog.fns
+            and effects.get(prog).writes(mir.callee_short(t)) and mir.callee_short(t) != "CircularBuffer::drain"
+            and not (mir.callee_short(t) or "").startswith("<Drain<N, T> as Drop>")]
+    stores = [w for b in f.reachable(False) for w in common.writes_at(f, b) if "store to" in w[1]]
+    ctx.check(len(dr) == 1 and not muts and not stores, rule, f.short, "one drain(..), nothing else mutates", f.loc,
+              "`consume` does not mutate the buffer by exactly one drain(..) (drain calls: %d; other mutating calls: %s; stores: %d)" % (len(dr), [m for _, m in muts][:3], len(stores)),
+              "one call of drain", cfg)
+    if len(dr) != 1:
+        return
+    b = dr[0][0]
+    a = [mir.strip_casts(f.deep_simplify(x)) for x in f.call_args(b)]
+    E = None
+    if len(a) == 2 and isinstance(a[1], tuple) and a[1][0] == "agg" and a[1][2] == "RangeTo":
+        E = mir.strip_casts(dict(a[1][3]).get("end"))
+    size0 = common.entry_size(f)
+    amt = ("param", 2)
+
+    def is_size(e):
+        e = mir.strip_casts(e)
+        return e == size0 or (isinstance(e, tuple) and e[:2] in (("call", "CircularBuffer::len"), ("pcall", "CircularBuffer::len")) and len(e[2]) == 1)
+
+    ok, why = False, "the range given to drain is not `..E`"
+    if E is not None:
+        if isinstance(E, tuple) and E[0] == "pcall" and str(E[1]).split("::")[-1] == "min" and len(E[2]) == 2:
+            x, y = mir.strip_casts(E[2][0]), mir.strip_casts(E[2][1])
+            ok = (x == amt and is_size(y)) or (y == amt and is_size(x))
+            why = "E = min(%s, %s)" % (mir.fmt(x, f)[:30], mir.fmt(y, f)[:30])
+        elif isinstance(E, tuple) and E[0] == "phi" and len(E) == 3:
+            G = guards.Guards(f)
+            ok, parts = True, []
+            for p in f.preds(False).get(E[1], []):
+                n = len(f.blocks[p]["stmts"]) + 1
+                v = mir.strip_casts(f.deep_simplify(f.version_expr(f.version_at(p, n, E[2]))))
+                atoms = set(G.facts_at(p))
+                for (s_, kind, label) in f.succ_edges(p):
+                    if s_ == E[1] and kind == "normal":
+                        atoms |= set(G.edge_atoms(p, label))
+                        break
+                Z = guards.Zone(f, atoms, [amt, size0])
+                if Z.contradiction:
+                    continue
+                if v == amt and Z.le(amt, size0, 0):
+                    parts.append("amt where amt <= len")
+                elif is_size(v) and Z.le(size0, amt, 0):
+                    parts.append("len where len <= amt")
+                else:
+                    ok = False
+                    parts.append("`%s` without the matching order of amt and len" % mir.fmt(v, f)[:40])
+            why = "E is " + " / ".join(parts)
+        else:
+            why = "E = `%s`" % mir.fmt(E, f)[:60]
+    ctx.check(ok, rule, f.short, "drain(..min(amt, len))", short_loc(f, b),
+              "`consume` is not `self.drain(..min(amt, self.len()))` (%s): it removes a different number of bytes or can hit the range panic" % why,
+              why, cfg)
